@@ -2065,7 +2065,7 @@ pub struct LargeCommunitiesList {
 }
 
 impl LargeCommunitiesList {
-    fn new(communities: Vec<LargeCommunity>)
+    pub fn new(communities: Vec<LargeCommunity>)
         -> LargeCommunitiesList
     {
         LargeCommunitiesList {communities }
